@@ -256,10 +256,12 @@ class LocalFileStore(Store):
             if os.path.lexists(loc) and os.path.realpath(loc) == loc_blob:
                 _logger.debug(f"Link {loc} up to date")
             else:
-                if os.path.lexists(loc):
-                    os.remove(loc)
                 _logger.info(f"Link {loc} -> {loc_blob}")
-                os.symlink(loc_blob, loc)
+                # The link is created under a temporary name and moved in place atomically:
+                # the path always resolves to its previous or to its new blob.
+                tmp_loc = f"{loc}.{_unique_suffix()}.tmp"
+                os.symlink(loc_blob, tmp_loc)
+                os.replace(tmp_loc, loc)
 
     def fetch_paths(self, paths: List[DDSPath]) -> "OrderedDict[DDSPath, PyHash]":
         res = OrderedDict()
